@@ -361,6 +361,96 @@ fn outcome_class(e: &Expect) -> String {
     }
 }
 
+/// Scenario family "repeat": the same URL text is loaded several times by importers in different
+/// directories. Each load is resolved on its own (relative to ITS importing file first, then the load
+/// paths): the markers must come out in statement order, one per load, and an unresolvable load is
+/// an error. A result remembered per URL text instead of per resolved file shows here.
+fn check_repeat(case: &Case, r: &fstree::Repeat, cx: &mut Ctx) -> Verdict {
+    cx.class("scenario:repeat-url");
+    let dirs = ["proj", "proj/p1", "proj/p2", "lp"];
+    let (sub, name) = match r.url.rfind('/') {
+        Some(i) => (&r.url[..i + 1], &r.url[i + 1..]),
+        None => ("", &r.url[..]),
+    };
+    let mut files: Vec<(String, String)> = vec![];
+    let mut marker_of: BTreeMap<String, u32> = BTreeMap::new();
+    for (i, d) in dirs.iter().enumerate() {
+        if r.present[i] & 1 == 1 {
+            let p = format!("{}/{}{}{}.scss", d, sub, if r.present[i] & 2 == 2 { "_" } else { "" }, name);
+            marker_of.insert(p.clone(), 1 + i as u32);
+            files.push((p, marker_rule('m', 1 + i as u32, false)));
+        }
+    }
+    let mut entry = String::new();
+    let mut froms: Vec<String> = vec![];
+    for (i, d) in r.steps.iter().enumerate() {
+        if *d == 0 {
+            entry.push_str(&format!("@import \"{}\";\n", r.url));
+            froms.push(case.entry.clone());
+        } else {
+            let go = format!("proj/p{}/go{}.scss", d, i);
+            entry.push_str(&format!("@import \"p{}/go{}\";\n", d, i));
+            files.push((go.clone(), format!("@import \"{}\";\n", r.url)));
+            froms.push(go);
+        }
+    }
+    let tree = Tree::new(files.iter().map(|f| f.0.clone()));
+    let mut expected: Vec<u32> = vec![];
+    let mut expect_error = false;
+    for from in &froms {
+        match model::resolve(&tree, Rule::Import, &r.url, from, &case.load_paths) {
+            Resolution::Found { path, .. } => expected.push(*marker_of.get(&model::normalize(&path)).unwrap_or(&0)),
+            Resolution::NotFound => {
+                expect_error = true;
+                break;
+            }
+            Resolution::Ambiguous(_) => return Verdict::Discard,
+        }
+    }
+    let distinct: BTreeSet<u32> = expected.iter().cloned().collect();
+    cx.class(&format!("repeat:distinct-targets:{}", distinct.len()));
+    let mut s = Single::scss("");
+    s.entry = Entry::Path(case.entry.clone());
+    s.syntax = None;
+    s.load_paths = case.load_paths.clone();
+    s.files.push((case.entry.clone(), Bytes::Text(entry.clone())));
+    for (p, t) in &files {
+        s.files.push((p.clone(), Bytes::Text(t.clone())));
+    }
+    let res = cx.compile(&s);
+    if res.outcome.is_abnormal() {
+        cx.inconclusive("abnormal outcome (C01's subject)");
+        return Verdict::Discard;
+    }
+    let details = json!({"entry": case.entry, "entry_text": entry, "load_paths": case.load_paths,
+        "files": files.iter().map(|(p, t)| json!({"path": p, "text": t})).collect::<Vec<_>>(),
+        "expected_markers_in_order": expected, "expect_error": expect_error, "outcome": res.outcome.short()});
+    if distinct.len() >= 2 && !expect_error {
+        cx.nontrivial(case);
+        cx.sample_nontrivial(|| details.clone());
+    }
+    match &res.outcome {
+        Outcome::Css(css) => {
+            if expect_error {
+                return Verdict::Fail(Failure::new("C13/repeat:unresolvable-load-accepted", "a load with no candidate file compiled (an earlier load of the same URL text resolved elsewhere)", details));
+            }
+            let (m, _) = markers_in(css);
+            if m != expected {
+                return Verdict::Fail(Failure::new("C13/repeat:wrong-file-for-repeated-url", format!("markers {:?}, expected {:?}: each load is resolved relative to its own importing file", m, expected), details));
+            }
+            Verdict::Pass
+        }
+        Outcome::Error(_) => {
+            if expect_error {
+                Verdict::Pass
+            } else {
+                Verdict::Fail(Failure::new("C13/repeat:unexpected-error", "every load has a candidate file, yet the compilation failed", details))
+            }
+        }
+        _ => Verdict::Discard,
+    }
+}
+
 impl Prop for C13 {
     type Case = Case;
     fn id(&self) -> &'static str {
@@ -378,9 +468,12 @@ impl Prop for C13 {
         ]
     }
     fn strategy(&self, tier: Tier) -> Option<(BoxedStrategy<Case>, u32)> {
-        Some((fstree::strategy(), tier.pick(30_000, 400_000)))
+        Some((prop_oneof![23 => fstree::strategy(), 2 => fstree::repeat_strategy()].boxed(), tier.pick(30_000, 400_000)))
     }
     fn check(&self, case: &Case, cx: &mut Ctx) -> Verdict {
+        if let Some(r) = &case.repeat {
+            return check_repeat(case, r, cx);
+        }
         let e = expect(case);
         if e.ambiguous {
             cx.class("discard:ambiguous-layout");
